@@ -179,6 +179,10 @@ def engArithScalar (s : St) (op : String) (tc : List String) (t : Dense) (sc : S
       return ⟨s, fo.reuse, .failed⟩
     return ⟨s, fo.reuse, .failed⟩
   if useIter then
+    -- a scalar operand taken from a rank-0 *view* whose window has more than one cell is not recognised as a
+    -- scalar by the kernels' dispatch (`len == 1`): the vector-vector iterator kernel runs with the scalar side's
+    -- nil iterator
+    if sc.win.len != 1 then throwPanic "nil iterator: scalar operand with a multi-cell window"
     let it ← t.itStream s
     let (ia, ib) : ItS × ItS := if leftTensor then (it, []) else ([], it)
     match fo.incr, fo.reuse with
@@ -328,6 +332,10 @@ def engCmpScalar (s : St) (op : String) (tc : List String) (t : Dense) (sc : Sca
   let retOf (r : Dense) : Ret := if created then .fresh r else .reuse
   let reuseOut (r : Dense) : Option Dense := if created then fo.reuse else some r
   if useIter then
+    -- a scalar operand taken from a rank-0 *view* whose window has more than one cell is not recognised as a
+    -- scalar by the kernels' dispatch (`len == 1`): the vector-vector iterator kernel runs with the scalar side's
+    -- nil iterator
+    if sc.win.len != 1 then throwPanic "nil iterator: scalar operand with a multi-cell window"
     let it ← t.itStream s
     let (ia, ib) : ItS × ItS := if leftTensor then (it, []) else ([], it)
     match reuse with
